@@ -270,6 +270,22 @@ class Compile(Contract):
         cls = I.module_attr(mod, "BasicBlock")
         blk = SObj(cls, {"_arglist": W.arglist, "_exprs": W.exprs, "_config": SObj("Config", {"common_subexpression_elimination": self.cse, "python_modules": ("scipy", "numpy", "math")}, "config")}, "block")
         install_sympy_models(I, W)
+
+        def temporaries_must_avoid(I2, site, tmpl):
+            """the names the temporaries generator skips are exactly the names of the block's arguments"""
+            av = tmpl.avoid
+            goal = z3.BoolVal(False)
+            note = "cse temporaries are not kept apart from the block's argument names: a model symbol called _t0 that does not occur in the block's expressions is shadowed (SyntaxError: duplicate argument / wrong binding)"
+            if isinstance(av, (SSeq, PyList)) and tmpl.avoid_prefix == "":
+                avs = as_seq2(av)
+                i = z3.Int("i_any")
+                el = avs.at(i)
+                if isinstance(el, StrV):
+                    goal = z3.And(avs.len_z() == W.a, z3.Implies(z3.And(i >= 0, i < W.a), el.z == name_f(W.arg_f(i))))
+                    note = "the skipped names must be the names of the block's arguments, position by position"
+            I2.path.oblige(f"{site}.cse_temporaries_avoid_the_blocks_argument_names", goal, note=note)
+
+        P.ghost["temporaries_must_avoid"] = temporaries_must_avoid
         return Call([blk], {}, W=W, blk=blk)
 
     def post(self, I, call, outcome):
@@ -330,7 +346,13 @@ def install_sympy_models(I, W):
         if isinstance(tmpl, GenV):
             tmpl = tmpl._seq
         ok = isinstance(tmpl, PlainTemporaries)
-        I2.path.oblige(f"{I2.path.ghost.get('site', 'cse')}.cse_temporaries_are_plain_symbols", z3.BoolVal(ok), note="cse(symbols=...) must be (Symbol(f'_t{i}') for i in count()) without assumptions")
+        site = I2.path.ghost.get('site', 'cse')
+        I2.path.oblige(f"{site}.cse_temporaries_are_plain_symbols", z3.BoolVal(ok), note="cse(symbols=...) must be (Symbol(f'_t{i}') for i in count() [if ... not in <names in use>]) without assumptions")
+        # premise of D-cse that sympy does NOT provide by itself: a temporary is never one of the block's own names (sympy only
+        # skips symbols occurring in the expressions; an argument / target that does not occur in them would be shadowed)
+        check = I2.path.ghost.get("temporaries_must_avoid")
+        if ok and check is not None:
+            check(I2, site, tmpl)
         repl = SSeq(wrap(W.p), lambda i: (SymV(W.t_f(i)), ExprV(W.rhs_f(i))), "cse_replacements")
         repl.pvc_type = "list"
         red = SSeq(SInt(W.q), lambda j: ExprV(W.red_f(j)), "cse_reduced")
@@ -388,7 +410,27 @@ class CountV:
         finally:
             I.frames.pop()
         plain = isinstance(v, SymbolCall) and not v.kw and len(v.args) == 1 and getattr(v.args[0], "parts", None) is not None and tuple(p for p in v.args[0].parts if isinstance(p, str)) == ("_t",) and any(p is idx for p in v.args[0].parts)
-        return PlainTemporaries() if plain and not gen.ifs else OtherTemporaries()
+        if not plain:
+            return OtherTemporaries()
+        if not gen.ifs:
+            return PlainTemporaries()
+        # one filter of the form  `<text built from the same index> not in <names already in use>`: it only SKIPS names
+        if len(gen.ifs) == 1 and isinstance(gen.ifs[0], _ast.Compare) and len(gen.ifs[0].ops) == 1 and isinstance(gen.ifs[0].ops[0], _ast.NotIn):
+            fr2 = Frame(None, {}, I.frame)
+            fr2.is_comp = True
+            fr2.module = None
+            I.frames.append(fr2)
+            try:
+                I.assign(gen.target, idx)
+                probe = I.eval(gen.ifs[0].left)
+            finally:
+                I.frames.pop()
+            avoid = I.eval(gen.ifs[0].comparators[0])
+            pparts = getattr(probe, "parts", None)
+            if pparts is not None and any(p is idx for p in pparts):
+                prefix_text = "".join(p for p in pparts if isinstance(p, str))
+                return PlainTemporaries(avoid=avoid, avoid_prefix=prefix_text[: -len("_t")] if prefix_text.endswith("_t") else None)
+        return OtherTemporaries()
 
 
 class SymbolCall:
@@ -402,7 +444,11 @@ class SymbolCall:
 
 
 class PlainTemporaries:
-    pass
+    """(Symbol(f"_t{i}") for i in count() [if f"<prefix>_t{i}" not in <avoid>]): plain, assumption-free symbols _t0, _t1, ...;
+    `avoid` is the collection of names the generator skips (None: nothing is skipped)."""
+
+    def __init__(self, avoid=None, avoid_prefix=None):
+        self.avoid, self.avoid_prefix = avoid, avoid_prefix
 
 
 class OtherTemporaries:
